@@ -6,6 +6,7 @@ pub mod c02;
 pub mod c03;
 pub mod c04;
 pub mod c05;
+pub mod c06;
 pub mod c07;
 pub mod c08;
 pub mod c09;
@@ -23,6 +24,7 @@ pub fn run(check: &str, ctx: &mut Ctx) -> bool {
         "c03" => c03::run(ctx),
         "c04" => c04::run(ctx),
         "c05" => c05::run(ctx),
+        "c06" => c06::run(ctx),
         "c07" => c07::run(ctx),
         "c08" => c08::run(ctx),
         "c09" => c09::run(ctx),
